@@ -5,6 +5,7 @@ import (
 	"go/ast"
 	"go/token"
 	"go/types"
+	"golang.org/x/tools/go/packages"
 	"sort"
 	"strings"
 )
@@ -293,8 +294,14 @@ func runC16(c *Ctx) {
 	}
 	c.check(compared["len(Literals)"], "C16.R3", key+"|literal-count", c.pos(hc.Pos()), "the number of literals is compared",
 		"HasChanged no longer compares the number of literals: an edit that adds a literal would read past the compiled program's indices")
-	c.check(compared["len(SourceMap.Expressions)"] && compared["SourceMap.Expressions[i]"], "C16.R3", key+"|expressions-elementwise", c.pos(hc.Pos()), "the expression list is compared by length and element-wise",
-		"HasChanged no longer compares the list of Go expressions by length and element by element")
+	exprOK := compared["len(SourceMap.Expressions)"] && compared["SourceMap.Expressions[i]"]
+	if !exprOK {
+		if found, lenCmp, elemCmp, _ := elementwiseInHelper(c, p, hc); found && lenCmp && elemCmp {
+			exprOK = true
+		}
+	}
+	c.check(exprOK, "C16.R3", key+"|expressions-elementwise", c.pos(hc.Pos()), "the expression list is compared by length and element-wise",
+		"HasChanged (or the helper it hands the two source maps to) does not compare the list of Go expressions by length and position by position: an edit that only reorders or swaps expressions is then taken for a text-only change, and the running program pairs its old literal indices with the new text file")
 	// (d) sink kind
 	contexts := map[string]bool{}
 	for _, gf := range g.order {
@@ -355,38 +362,41 @@ func runC16(c *Ctx) {
 			evOb := gp.TypesInfo.ObjectOf(ev)
 			for _, st := range cc.Body {
 				a2, ok := st.(*ast.AssignStmt)
-				if !ok || len(a2.Lhs) != 1 || len(a2.Rhs) != 1 {
+				if !ok || len(a2.Lhs) != len(a2.Rhs) {
 					continue
 				}
-				lhs, ok := a2.Lhs[0].(*ast.Ident)
-				if !ok {
-					continue
-				}
-				if t := gp.TypesInfo.TypeOf(lhs); t == nil || t.String() != "bool" {
-					continue
-				}
-				mentionsEvent := false
-				ast.Inspect(a2.Rhs[0], func(m ast.Node) bool {
-					if id, ok := m.(*ast.Ident); ok && gp.TypesInfo.ObjectOf(id) == evOb {
-						mentionsEvent = true
+				for pi := range a2.Lhs {
+					lhs, ok := a2.Lhs[pi].(*ast.Ident)
+					if !ok {
+						continue
 					}
-					return true
-				})
-				if !mentionsEvent {
-					continue
-				}
-				nacc++
-				good := false
-				if be, ok := a2.Rhs[0].(*ast.BinaryExpr); ok && be.Op == token.LOR {
-					if x, ok := be.X.(*ast.Ident); ok && x.Name == lhs.Name {
-						good = true
+					rhs := a2.Rhs[pi]
+					if t := gp.TypesInfo.TypeOf(lhs); t == nil || t.String() != "bool" {
+						continue
 					}
-					if y, ok := be.Y.(*ast.Ident); ok && y.Name == lhs.Name {
-						good = true
+					mentionsEvent := false
+					ast.Inspect(rhs, func(m ast.Node) bool {
+						if id, ok := m.(*ast.Ident); ok && gp.TypesInfo.ObjectOf(id) == evOb {
+							mentionsEvent = true
+						}
+						return true
+					})
+					if !mentionsEvent {
+						continue
 					}
+					nacc++
+					good := false
+					if be, ok := rhs.(*ast.BinaryExpr); ok && be.Op == token.LOR {
+						if x, ok := be.X.(*ast.Ident); ok && x.Name == lhs.Name {
+							good = true
+						}
+						if y, ok := be.Y.(*ast.Ident); ok && y.Name == lhs.Name {
+							good = true
+						}
+					}
+					c.check(good, "C16.R4", funcKey(gp, run)+"|accumulates:"+lhs.Name, c.pos(a2.Pos()), lhs.Name+" accumulates over the events of one window",
+						fmt.Sprintf("%s is overwritten by each event (%s) instead of accumulated with ||: when a change that needs recompilation is followed within the debounce window by a text-only change, the program is not rebuilt and keeps running old code against the new text file", lhs.Name, nodeText(c.fset, a2)))
 				}
-				c.check(good, "C16.R4", funcKey(gp, run)+"|accumulates:"+lhs.Name, c.pos(a2.Pos()), lhs.Name+" accumulates over the events of one window",
-					fmt.Sprintf("%s is overwritten by each event (%s) instead of accumulated with ||: when a change that needs recompilation is followed within the debounce window by a text-only change, the program is not rebuilt and keeps running old code against the new text file", lhs.Name, nodeText(c.fset, a2)))
 			}
 			return true
 		})
@@ -404,4 +414,95 @@ func blockReturnsTrue(b *ast.BlockStmt) bool {
 	}
 	ret, ok := b.List[0].(*ast.ReturnStmt)
 	return ok && len(ret.Results) == 1 && types.ExprString(ret.Results[0]) == "true"
+}
+
+// elementwiseInHelper: HasChanged may delegate the comparison of the expression lists to a helper of the package. The
+// helper must compare the two lists by length and position by position (an index expression on one list compared
+// with the same position of the other); a comparison as multisets accepts a reordering, after which the running
+// program pairs its old literal indices with the new text file.
+func elementwiseInHelper(c *Ctx, p *packages.Package, hc *ast.FuncDecl) (found bool, lenCmp bool, elemCmp bool, name string) {
+	info := p.TypesInfo
+	ast.Inspect(hc.Body, func(n ast.Node) bool {
+		call, ok := n.(*ast.CallExpr)
+		if !ok || found {
+			return true
+		}
+		fn := calleeOf(info, call)
+		if fn == nil || fn.Pkg() != p.Types || len(call.Args) != 2 {
+			return true
+		}
+		if !strings.Contains(types.ExprString(call.Args[0]), "SourceMap") || !strings.Contains(types.ExprString(call.Args[1]), "SourceMap") {
+			return true
+		}
+		hfd := findFunc(p, "", fn.Name())
+		if hfd == nil {
+			return true
+		}
+		found = true
+		name = fn.Name()
+		var params []types.Object
+		for _, prm := range hfd.Type.Params.List {
+			for _, nm := range prm.Names {
+				params = append(params, info.Defs[nm])
+			}
+		}
+		if len(params) != 2 {
+			return true
+		}
+		root := func(e ast.Expr) types.Object {
+			id := rootIdent(e)
+			return info.ObjectOf(id)
+		}
+		ast.Inspect(hfd.Body, func(m ast.Node) bool {
+			be, ok := m.(*ast.BinaryExpr)
+			if !ok || !(be.Op == token.NEQ || be.Op == token.EQL) {
+				return true
+			}
+			lx, okx := ast.Unparen(be.X).(*ast.CallExpr)
+			ly, oky := ast.Unparen(be.Y).(*ast.CallExpr)
+			if okx && oky && types.ExprString(lx.Fun) == "len" && types.ExprString(ly.Fun) == "len" {
+				a, b := root(lx.Args[0]), root(ly.Args[0])
+				if a != b && (a == params[0] || a == params[1]) && (b == params[0] || b == params[1]) {
+					lenCmp = true
+				}
+			}
+			// position by position
+			ix, isIx := ast.Unparen(be.Y).(*ast.IndexExpr)
+			other := be.X
+			if !isIx {
+				ix, isIx = ast.Unparen(be.X).(*ast.IndexExpr)
+				other = be.Y
+			}
+			if !isIx {
+				return true
+			}
+			ra := root(ix.X)
+			if !(ra == params[0] || ra == params[1]) {
+				return true
+			}
+			// the other side: same index on the other list, or the value variable of a range over the other list
+			if ox, ok := ast.Unparen(other).(*ast.IndexExpr); ok {
+				rb := root(ox.X)
+				if rb != ra && (rb == params[0] || rb == params[1]) && types.ExprString(ox.Index) == types.ExprString(ix.Index) {
+					elemCmp = true
+				}
+			}
+			if oid, ok := ast.Unparen(other).(*ast.Ident); ok {
+				ast.Inspect(hfd.Body, func(k ast.Node) bool {
+					if rs, ok := k.(*ast.RangeStmt); ok && rs.Body.Pos() <= be.Pos() && be.End() <= rs.Body.End() {
+						if vid, ok := rs.Value.(*ast.Ident); ok && info.ObjectOf(vid) == info.ObjectOf(oid) {
+							rb := root(rs.X)
+							if rb != ra && (rb == params[0] || rb == params[1]) && rs.Key != nil && types.ExprString(rs.Key) == types.ExprString(ix.Index) {
+								elemCmp = true
+							}
+						}
+					}
+					return true
+				})
+			}
+			return true
+		})
+		return true
+	})
+	return
 }
